@@ -35,7 +35,67 @@ type c16Replay struct {
 	Detail  string   `json:"detail"`
 }
 
+// c16NestedOpen: a cursor declared in an outer block is opened inside a nested block (IF / WHILE / CASE / function body) that has its
+// own variable or temporary table of a name the cursor's query uses. OPEN evaluates the query where it stands: the rows the
+// cursor then delivers (COUNT, WHILE IN, FETCH) are those of the same SELECT evaluated immediately before the OPEN.
+func c16NestedOpen(w *core.Worker, i int) {
+	r := w.Rng(i, "nested")
+	core.WriteFiles(w.Work, map[string]string{"g.csv": "id,grp\n1,1\n2,2\n3,1\n4,2\n5,2\n6,3\n"})
+	for k := 0; k < 8; k++ {
+		q := []string{"SELECT id FROM g WHERE grp = @grp ORDER BY id", "SELECT x FROM tmp ORDER BY x", "SELECT id FROM g WHERE id IN (SELECT x FROM tmp) OR grp = @grp ORDER BY id", "SELECT id + @grp FROM g WHERE grp <= @grp ORDER BY id"}[r.Intn(4)]
+		inner := []string{"VAR @grp := 2;", "DECLARE tmp VIEW (x) AS SELECT 4 UNION ALL SELECT 5;", "VAR @grp := 3; DECLARE tmp VIEW (x) AS SELECT 6;", "@grp := 2;", "INSERT INTO tmp VALUES (2);", ""}[r.Intn(6)]
+		blk := []string{"IF TRUE THEN\n%s\nEND IF;", "VAR @w := 0; WHILE @w < 1 DO\n@w := @w + 1;\n%s\nEND WHILE;", "CASE WHEN TRUE THEN\n%s\nEND CASE;", "DECLARE blk FUNCTION () AS BEGIN\n%s\nRETURN 0; END; VAR @r := blk();", "IF TRUE THEN IF TRUE THEN\n%s\nEND IF; END IF;", "%s"}[r.Intn(6)]
+		if blk == "%s" && strings.Contains(inner, "VAR @grp") || blk == "%s" && strings.Contains(inner, "DECLARE tmp") {
+			inner = "@grp := 3;" // (in the declaring block itself a second declaration is an error)
+		}
+		// what is observed goes into a temporary table of the outermost block and is read at the end
+		body := inner + "\nINSERT INTO log SELECT 'reference', * FROM (" + q + ") ref;\nOPEN cur;\nINSERT INTO log VALUES ('count', CURSOR cur COUNT);\nVAR @a; WHILE @a IN cur DO INSERT INTO log VALUES ('row', @a); END WHILE;\nFETCH FIRST cur INTO @a; INSERT INTO log VALUES ('first', @a);\nCLOSE cur;"
+		prog := "VAR @grp := 1; DECLARE log VIEW (tag, val); DECLARE tmp VIEW (x) AS SELECT 1 UNION ALL SELECT 3; DECLARE cur CURSOR FOR " + q + ";\n" + fmt.Sprintf(blk, body) + "\nSELECT tag, val FROM log;"
+		s, err := core.NewSess(core.SessOpts{Dir: w.Work, Quiet: true})
+		if err != nil {
+			w.Inconclusive(err.Error())
+			return
+		}
+		res := s.Exec(prog)
+		s.Close()
+		if res.Err != nil {
+			w.Violation("nested-open:error", fmt.Sprintf("%v\n%s", res.Err, prog), c16Replay{History: []string{prog}, Detail: fmt.Sprint(res.Err)})
+			continue
+		}
+		var ref, rows []string
+		count, first := "", ""
+		for _, v := range res.Views {
+			for _, row := range v.Rows {
+				if len(row) < 2 {
+					continue
+				}
+				switch row[0].S {
+				case "reference":
+					ref = append(ref, row[1].S)
+				case "row":
+					rows = append(rows, row[1].S)
+				case "count":
+					count = row[1].S
+				case "first":
+					first = row[1].S
+				}
+			}
+		}
+		wantFirst := ""
+		if len(ref) > 0 {
+			wantFirst = ref[0]
+		}
+		if strings.Join(rows, ",") != strings.Join(ref, ",") || count != strconv.Itoa(len(ref)) || (len(ref) > 0 && first != wantFirst) {
+			w.Violation("nested-open:rows", fmt.Sprintf("the query evaluated right before OPEN returns %v; the cursor counts %s rows, WHILE IN visits %v, FETCH FIRST gives %q\n%s", ref, count, rows, first, prog), c16Replay{History: []string{prog}, Detail: "reference " + strings.Join(ref, ",") + " cursor " + strings.Join(rows, ",")})
+		}
+		w.Count("cursors_opened_in_a_nested_block", 1)
+	}
+}
+
 func c16Case(w *core.Worker, i int) {
+	if i%40 == 5 {
+		c16NestedOpen(w, i)
+	}
 	r := w.Rng(i, "")
 	n := []int{0, 1, 2, 7, 7, 12, 300}[r.Intn(7)]
 	cpu := 1
